@@ -176,6 +176,7 @@ class VLoop(asyncio.BaseEventLoop):
         """Default schedule: ready handles FIFO; when idle complete the oldest enabled job; when no
         job, fire timers inside `horizon`. Stops at quiescence (or when until() is true)."""
         n = 0
+        t_end = None if horizon is None else self._vtime + horizon  # absolute: periodic timers cannot extend it
         while True:
             if until is not None and until():
                 return True
@@ -186,7 +187,9 @@ class VLoop(asyncio.BaseEventLoop):
                 if ej:
                     self.complete_job(ej[0])
                 else:
-                    t = self.next_timer(horizon)
+                    t = self.next_timer()
+                    if t is not None and t_end is not None and t._when > t_end:
+                        t = None
                     if t is None:
                         if self.jobs:
                             raise HarnessError("deadlock: jobs pending but none enabled: %r"
